@@ -38,6 +38,7 @@ TABLES = [
     "token_scopes", "scope_tree", "scope_locals", "scope_owner",
     "scope_imports", "scope_wildcards", "scope_mixins", "scope_generic",
     "generic_instances", "symbol_resolved", "generic_inferred", "type_dag", "msb", "connect_op", "resolve_cache",
+    "generic_instance_index",
 ]
 
 TABLE_MODULES = ["text_table", "resource_table", "doc_comment_table", "literal_table", "attribute_table",
@@ -67,7 +68,7 @@ WRITES = {
     "symbol_table::add_reference_functions": ["reference_functions"],
     "symbol_table::add_reference": ["symbol_references"],
     "symbol_table::add_generic_instance": ["generic_instances"],
-    "symbol_table::index_generic_instance": ["generic_instances"],
+    "symbol_table::index_generic_instance": ["generic_instance_index"],
     "symbol_table::update_generic_instance_affiliation": ["generic_instances"],
     "symbol_table::update": ["symbol_resolved"],
     "reference_table::add": ["ref_candidates"], "type_dag::add": ["dag_candidates"],
@@ -121,7 +122,11 @@ DROPS = {
         (r"self\.reference_table\.remove\(", "symbol_references"),
         (r"tokens\.retain\(\|x\| !is_drop_token", "symbol_references"),
         (r"scope::drop_symbols\(", "scope_locals")]),
-    "scope::drop_tokens": (A + "scope.rs", "drop_tokens", [(r"self\.token_scopes\.remove\(", "token_scopes")]),
+    "scope::drop_tokens": (A + "scope.rs", "drop_tokens", [
+        (r"self\.token_scopes\.remove\(", "token_scopes"),
+        (r"scope\s*\.imports\s*\.retain\(", "scope_imports"),
+        (r"scope\s*\.wildcards\s*\.retain\(", "scope_wildcards"),
+        (r"scope\s*\.mixins\s*\.retain\(", "scope_mixins")]),
     "text_table::drop": ("crates/parser/src/text_table.rs", "drop", [(r"retain|remove", "text")]),
     "attribute_table::drop": (A + "attribute_table.rs", "drop", [(r"drop|retain|remove", "attribute")]),
     "unsafe_table::drop": (A + "unsafe_table.rs", "drop", [(r"drop|retain|remove", "unsafe")]),
@@ -260,8 +265,8 @@ def extract(repo):
         bodies = fn_bodies(src, fn)
         if not bodies:
             raise TranslatorError("%s: fn %s not found" % (rel, fn))
-        # the impl method is the longest body (the free function just forwards to it)
-        b = max(bodies, key=len)
+        # the impl method and the free function forwarding to it
+        b = "\n".join(bodies)
         for pat, tab in pats:
             if re.search(pat, b):
                 if tab not in dropped:
@@ -280,6 +285,10 @@ def extract(repo):
     info["cache_cleared_on_insert"] = bool(free_insert and all(re.search(r"clear_resolve_caches\(\)|clear_cache\(\)|SYMBOL_ERR_CACHE", b) for b in free_insert))
     if "symbol_table::drop" in drop_calls and info["cache_cleared_on_drop"] and info["cache_cleared_on_insert"]:
         dropped.append("resolve_cache")
+    # the structural generic-instance index follows the symbols it points to
+    if "symbol_table::drop" in drop_calls and free_drop and all(
+            re.search(r"GENERIC_INSTANCE_INDEX\.with\(.*?retain\(", b, re.S) for b in free_drop):
+        dropped.append("generic_instance_index")
     info["drop_calls"] = drop_calls
     info["dropped"] = dropped
 
@@ -365,8 +374,15 @@ def extract(repo):
     info["serve_post_after_task"] = bool(srv and re.search(r"task\.paths\.is_empty\(\)\s*\{\s*Analyzer::analyze_post_pass1\(\)", srv[0]))
     rm = fn_bodies(sv, "on_remove")
     info["on_remove_drops"] = bool(rm and "Analyzer::drop_file" in rm[0])
+    info["on_remove_forgets"] = bool(rm and re.search(r"document_map\s*\.remove\(", rm[0]))
     dc = _strip_comments(_read(repo, "crates/languageserver/src/backend.rs"))
-    info["did_close_handled"] = bool(re.search(r"async fn did_close", dc))
+    # didClose reaches the analysis thread and there: document_map.remove, drop_file, a background task
+    handler = re.search(r"async fn did_close[^{]*\{", dc)
+    sent = bool(handler and re.search(r"MsgToServer::DidClose", dc[handler.end():_match(dc, handler.end() - 1)]))
+    cl = fn_bodies(sv, "did_close")
+    info["did_close_handled"] = bool(sent and cl and re.search(r"MsgToServer::DidClose\s*\{[^}]*\}\s*=>\s*self\.did_close", sv)
+                                     and re.search(r"document_map\s*\.remove\(", cl[0]) and "Analyzer::drop_file" in cl[0]
+                                     and re.search(r"background_tasks\.push_back\(", cl[0]))
     info["did_save_handled"] = bool(re.search(r"async fn did_save", dc))
     # try_restore = drop_file + restore
     inc = _strip_comments(_read(repo, "crates/languageserver/src/incremental.rs"))
@@ -401,6 +417,7 @@ def render(info):
             "Definition background_shape_ok : bool := %s." % ("true" if info["background_ok"] and info["serve_post_after_task"] and info["try_restore_drops_first"] else "false"),
             "Definition on_remove_drops : bool := %s." % ("true" if info["on_remove_drops"] else "false"),
             "Definition did_close_handled : bool := %s." % ("true" if info["did_close_handled"] else "false"),
+            "Definition on_remove_forgets : bool := %s." % ("true" if info["on_remove_forgets"] else "false"),
             "Definition did_save_handled : bool := %s." % ("true" if info["did_save_handled"] else "false"), ""]
     return "\n".join(out)
 
